@@ -169,6 +169,21 @@ Theorem C03_moving_walk_accounting :
           (i <= i')%nat /\ (i' <= j')%nat /\ (j' <= j)%nat /\ get_a v st' = get_a v st.
 Proof. exact sp_walk_mv_perm. Qed.
 
+(** splices whose yielded items are moved or forgotten: every element and every replacement value ends up in exactly one place *)
+Theorem C03_moving_splice_accounting :
+  forall c : cfg,
+         c_dg c = true ->
+         forall (st : astate) (nx : N) (v : nat) (sb eb : bound) (pat : list (bool * sink)) 
+           (f : fin) (rk : rkind) (n : N) (wa : option N) (cl : N) (r : sres) (D L : list N),
+         1 <= nx ->
+         sp_splice c st nx v sb eb pat f rk n wa cl = None ->
+         sp_splice_mv c st nx v sb eb pat f rk n wa cl = Some r ->
+         Permutation (created c nx) (vis st ++ D ++ L) ->
+         Permutation (created c (s_nx r))
+           (vis (s_st r) ++
+            (D ++ drops (s_evs r)) ++ L ++ leak_of c st nx (OSplice Erased v sb eb pat f rk n wa cl)).
+Proof. exact splice_mv_own. Qed.
+
 (* ---- end histories ---- *)
 Print Assumptions C03_step.
 Print Assumptions C03_no_double_drop.
@@ -191,3 +206,4 @@ Print Assumptions C03_history_all_destroyed.
 Print Assumptions C03_history_events_are_the_specs.
 Print Assumptions C03_moving_drain_accounting.
 Print Assumptions C03_moving_walk_accounting.
+Print Assumptions C03_moving_splice_accounting.
